@@ -374,7 +374,10 @@ FNS = {
 # ---------------------------------------------------------------------------------------------
 
 def worker_case(c):
-    return {k: v for k, v in c.items() if k not in ("meta", "stream", "enc_len", "trail")}
+    d = {k: v for k, v in c.items() if k not in ("meta", "stream", "enc_len", "trail", "cut")}
+    if c.get("cut"):
+        d["inp"] = c["inp"][:len(c["inp"]) - 2 * c["cut"]]
+    return d
 
 
 def short(c):
@@ -388,8 +391,29 @@ def check_cases(ctx, pid, cases, workdir, sanitize):
     real = L.run_real([worker_case(c) for c in cases], workdir, sanitize=sanitize, nproc=4 if ctx.quick() else 8)
     mouts = L.pq_batch([FNS[c["fn"]]["model"](c) for c in cases], nproc=4)
     souts = L.pq_batch([FNS[c["fn"]]["spec"](c) for c in cases], nproc=4)
+    souts = second_phase(cases, real, souts)
     for c, r, mo, so in zip(cases, real, mouts, souts):
         judge(ctx, pid, c, r, mo, so, guard, sanitize)
+
+
+def second_phase(cases, real, souts):
+    """spec decoders applied to what the REAL encoders wrote (`spec2`), batched; result replaces `so` by (so, so2)"""
+    idx, cmds = [], []
+    for i, (c, r) in enumerate(zip(cases, real)):
+        f2 = FNS[c["fn"]].get("spec2")
+        if f2 is not None:
+            cmd = f2(c, r)
+            if cmd is not None:
+                idx.append(i)
+                cmds.append(cmd)
+    outs = L.pq_batch(cmds, nproc=4)
+    souts = list(souts)
+    for i in range(len(cases)):
+        if FNS[cases[i]["fn"]].get("spec2") is not None:
+            souts[i] = (souts[i], None)
+    for i, o in zip(idx, outs):
+        souts[i] = (souts[i][0], o)
+    return souts
 
 
 def judge(ctx, pid, c, r, mo, so, guard, sanitize, verbose=False):
@@ -416,6 +440,8 @@ def judge(ctx, pid, c, r, mo, so, guard, sanitize, verbose=False):
         failed |= ctx.fail(dict(cls, kind=r[0], verdict=mtag or "ok"), short(c), "real code: %r" % (r,))
         if model_ok:
             ctx.correspondence("impl model verdict Ok <=> clean execution of %s" % fn, short(c), "clean", r[0])
+    if "info" in f:
+        ctx.count("byte-equal with the witness model: " + fn, bool(f["info"](c, mo, r)))
     if model_ok and not crashed:
         mv, iv = f["views"](c, mo, r, guard)
         ctx.correspondence("%s ~ impl model (output buffer incl. guard, cursors)" % fn, short(c), mv, iv)
@@ -450,7 +476,7 @@ def replay_case(case, sanitize):
         f = FNS[c["fn"]]
         r = L.run_real([worker_case(c)], tmp, sanitize=sanitize, nproc=1)[0]
         mo = L.pq_batch([f["model"](c)])[0]
-        so = L.pq_batch([f["spec"](c)])[0]
+        so = second_phase([c], [r], L.pq_batch([f["spec"](c)]))[0]
         print("case      :", json.dumps(short(c))[:1500])
         print("real code :", json.dumps(r)[:600])
         print("impl model:", repr(mo)[:600])
@@ -471,3 +497,399 @@ def replay_case(case, sanitize):
         return 1 if bad else 0
     finally:
         shutil.rmtree(tmp, ignore_errors=True)
+
+
+# =============================================================================================
+# stage 2: delta, encoders, byte arrays, booleans, Python packers
+# =============================================================================================
+
+FILL32 = 0xAAAAAAAA
+FILL64 = 0xAAAAAAAAAAAAAAAA
+
+
+def _wrap(v, bits):
+    v &= (1 << bits) - 1
+    return v - (1 << bits) if v >> (bits - 1) else v
+
+
+def _delta_values(rng, bits, count, vpm, w_of_mini, pattern):
+    """values whose miniblock number m needs exactly width w_of_mini(m) (min_delta is the block's chosen offset)"""
+    if count == 0:
+        return [], []
+    first = rng.choice([0, 1, -1, 12345, -(1 << (bits - 1)), (1 << (bits - 1)) - 1])
+    vals = [first]
+    widths = []
+    nd = count - 1
+    m = 0
+    pos = 0
+    md_block = None
+    while pos < nd:
+        n = min(vpm, nd - pos)
+        w = w_of_mini(m)
+        if md_block is None or (m * vpm) % (vpm * 4) == 0:
+            md_block = rng.choice([0, -3, 7, -(1 << 20)])
+        mk = (1 << w) - 1
+        if pattern == "zeros" or w == 0:
+            adj = [0] * n
+        elif pattern == "ones":
+            adj = [mk] * n
+        elif pattern == "alternating":
+            adj = [((0xAAAAAAAAAAAAAAAA if i % 2 else 0x5555555555555555) & mk) for i in range(n)]
+        else:
+            adj = [rng.randrange(mk + 1) for _ in range(n)]
+        if w:
+            adj[0] = 0 if (pos == 0 or n > 1 and m % 4 == 0) else adj[0]
+            adj[-1 if n > 1 else 0] |= 1 << (w - 1)          # the width really is w
+        widths.append(max((a.bit_length() for a in adj), default=0))
+        for a in adj:
+            vals.append(_wrap(vals[-1] + md_block + a, bits))
+        pos += n
+        m += 1
+    return vals, widths
+
+
+def gen_delta(rng, quick):
+    cases = []
+    layouts = [(128, 4)] if quick else [(128, 4), (64, 2), (256, 8)]
+    for longval in (0, 1):
+        bits = 64 if longval else 32
+        isz = bits // 8
+        for bs, mpb in layouts:
+            vpm = bs // mpb
+            for w in range(0, bits + 1):
+                pats = ["random"] if (quick and w not in (0, 1, 8, 24, 28, 29, 32, 56, 57, 64)) else ["ones", "alternating", "random"]
+                for pat in pats:
+                    counts = [vpm + 1, bs + 2] if quick else [2, vpm, vpm + 1, vpm + 2, bs, bs + 1, bs + 2, 2 * bs + 1]
+                    if pat != "random":
+                        counts = counts[:1]
+                    for count in counts:
+                        vals, widths = _delta_values(rng, bits, count, vpm, lambda m: w, pat)
+                        mw = max(widths) if widths else 0
+                        cases.append({"fn": "delta_unpack", "longval": longval, "cap": count * isz,
+                                      "enc": ["delta_enc", bits, bs, mpb, vals], "trail": True,
+                                      "stream": "confirm" if mw >= 29 else "main",
+                                      "meta": {"count": count, "bs": bs, "mpb": mpb, "max_width": mw, "pattern": pat,
+                                               "cap_class": "exact", "vals": vals}})
+            # counts around the block structure, mixed widths per miniblock, all capacities classes
+            for count in ([0, 1, 2, 5, vpm, vpm + 1, bs, bs + 1, bs + 2] if quick else list(range(0, 12)) + [vpm - 1, vpm, vpm + 1, vpm + 2, 2 * vpm + 1, bs - 1, bs, bs + 1, bs + 2, 2 * bs, 2 * bs + 1, 3 * bs + 5]):
+                wsel = [rng.choice([0, 1, 3, 8, 13, 24, 28]) for _ in range(40)]
+                vals, widths = _delta_values(rng, bits, count, vpm, lambda m: wsel[m % 40], "random")
+                mw = max(widths) if widths else 0
+                for cc, cap in (("exact", count * isz), ("long", (count + 1) * isz), ("short", max(count - 1, 0) * isz),
+                                ("odd", count * isz + isz - 1), ("none", 0), ("short", isz)):
+                    if cc == "short" and cap >= count * isz:
+                        continue
+                    if cc == "none" and count == 0:
+                        continue
+                    cases.append({"fn": "delta_unpack", "longval": longval, "cap": cap,
+                                  "enc": ["delta_enc", bits, bs, mpb, vals], "trail": True,
+                                  "stream": "main" if (cc in ("exact", "odd") and count > 0 and (count - 1) % bs) else "confirm",
+                                  "meta": {"count": count, "bs": bs, "mpb": mpb, "max_width": mw, "pattern": "mixed",
+                                           "cap_class": cc, "vals": vals}})
+    return cases
+
+
+def _du_model(c):
+    isz = 8 if c["longval"] else 4
+    return ("c_delta_unpack", _inp(c), c["cap"] // isz, FILL64 if c["longval"] else FILL32, c["cap"], c["longval"])
+
+
+def _du_views(c, mo, r, guard):
+    isz = 8 if c["longval"] else 4
+    t = L.tag(mo)
+    if t != "ok":
+        return t, L.impl_decoder_view(r)
+    items, used, oloc = mo[1], mo[2], mo[3]
+    return [L.expect_outbuf(items, isz, c["cap"], guard), used, oloc], L.impl_decoder_view(r)
+
+
+def _du_oracle(c, r, so, guard):
+    isz = 8 if c["longval"] else 4
+    if not so:
+        return [("spec", "spec decoder rejects the stream")]
+    vals, rest = so[0]
+    n = min(len(vals), c["cap"] // isz)
+    want_in = len(_inp(c)) - len(rest)
+    return _check_decoder(c, r, vals[:n], want_in, n * isz, guard, isz=isz)
+
+
+def _du_cls(c):
+    m = c["meta"]
+    return {"max_width": m["max_width"], "longval": c["longval"], "cap_class": m["cap_class"], "count0": m["count"] == 0,
+            "block_boundary": m["count"] >= 1 and (m["count"] - 1) % m["bs"] == 0}
+
+
+def _du_safe(c):
+    m = c["meta"]
+    return m["max_width"] <= 28 and m["count"] > 0 and m["cap_class"] in ("exact", "odd", "long")
+
+
+# ---- encoders --------------------------------------------------------------------------------
+def gen_encoders(rng, quick):
+    cases = []
+    ns = [0, 1, 7, 8, 9, 16, 17, 40] if quick else [0, 1, 2, 7, 8, 9, 15, 16, 17, 24, 40, 120]
+    for w in range(0, 33):
+        for n in ns:
+            for pname, vs in patterns(rng, w, n):
+                if quick and pname != "random" and n not in (8, 9):
+                    continue
+                need = 5 + (n * w + 7) // 8
+                for cap in sorted({need + 4, need, max(need - 5, 0), 0, 1, 3}) if pname == "random" else [need + 4]:
+                    for fn, wl in (("enc_bitpacked", 0), ("enc_rle_bp", 0), ("enc_rle_bp", 1)):
+                        if fn == "enc_rle_bp" and wl == 0 and cap != need + 4:
+                            continue
+                        cases.append({"fn": fn, "vals": vs, "w": w, "cap": cap + 4 * wl, "withlength": wl,
+                                      "stream": "confirm" if (w >= 25 and n > 0) else "main",
+                                      "meta": {"n": n, "pattern": pname}})
+    for k in list(range(0, 64)):
+        for v in sorted({(1 << k) - 1, 1 << k, (1 << k) + 1}):
+            if 0 <= v < (1 << 63):
+                cases.append({"fn": "width_from_max_int", "x": v, "stream": "main", "meta": {}})
+    # write_bitpacked1: np.packbits order, a whole-function finding; few cases
+    for n in ([0, 1, 7, 8, 9, 16, 17] if quick else list(range(0, 41))):
+        vs = [rng.randrange(2) for _ in range(n)]
+        for cap in sorted({(n + 7) // 8, (n + 7) // 8 + 2}):
+            cases.append({"fn": "write_bitpacked1", "count": n, "inp": bytes(vs).hex(), "cap": cap,
+                          "stream": "confirm" if n else "main", "meta": {"vals": vs}})
+    return cases
+
+
+def _opt_bytes_view(lst, cap, guard):
+    b = bytearray([L.FILL]) * (cap + guard)
+    for i, x in enumerate(lst):
+        if i < cap + guard and x != []:
+            b[i] = x
+    return bytes(b).hex()
+
+
+def _eb_views(c, mo, r, guard):
+    t = L.tag(mo)
+    iv = [r[1], r[2]] if r[0] == "ok" else r[:2]
+    if t != "ok":
+        return t, iv
+    if c["fn"] == "enc_rle_bp":
+        return [_opt_bytes_view(mo[1], c["cap"], guard), mo[2]], iv
+    return [L.expect_raw(bytes(mo[1]), c["cap"], guard), mo[2]], iv
+
+
+def _eb_spec(c):
+    # what a spec decoder makes of the bytes the real encoder wrote is computed in the oracle; here: the spec encoding
+    return ("hyb_enc_len" if c.get("withlength") else "hyb_enc", c["w"], [["bp", c["vals"]]] if c["vals"] else [])
+
+
+def _eb_oracle(c, r, so, guard):
+    """every encoder's output decodes back to its input (spec decoder, lenient about the unpadded last group)"""
+    if r[0] != "ok":
+        return [(r[0], "real code: %r" % (r,))]
+    n = len(c["vals"])
+    got = bytes.fromhex(r[1])
+    if got[c["cap"]:] != bytes([L.FILL]) * (len(got) - c["cap"]):
+        return [("overwrite", "bytes behind the output buffer were written")]
+    need = (4 if c.get("withlength") else 0) + len(_uleb_py(((n + 7) // 8) << 1 | 1)) + (n * c["w"] + 7) // 8
+    if c["cap"] < need:
+        return []                      # buffer too small by construction: only "nothing behind it" is required
+    out = got[:r[2]]
+    dec = so[1]
+    if not dec or list(dec[0][0]) != [v & ((1 << c["w"]) - 1) for v in c["vals"]]:
+        return [("values", "output %s does not decode (spec hybrid decoder) to the %d input values" % (out[:40].hex(), n))]
+    if r[2] != need:
+        return [("cursor", "output cursor %d, the run needs %d bytes" % (r[2], need))]
+    return []
+
+
+def _eb_need(c):
+    n = len(c["vals"])
+    return (4 if c.get("withlength") else 0) + len(_uleb_py(((n + 7) // 8) << 1 | 1)) + (n * c["w"] + 7) // 8
+
+
+def _eb_spec2(c, r):
+    if r[0] != "ok" or c["cap"] < _eb_need(c):
+        return None
+    out = bytes.fromhex(r[1])[:r[2]]
+    return ("hyb_dec_len" if c.get("withlength") else "hyb_dec", 0, c["w"], len(c["vals"]), out)
+
+
+def _wf_oracle(c, r, so, guard):
+    if r[0] != "ok" or r[1] != c["x"].bit_length():
+        return [("values", "width_from_max_int(%d) = %r, bit length is %d" % (c["x"], r, c["x"].bit_length()))]
+    return []
+
+
+def _w1_views(c, mo, r, guard):
+    t = L.tag(mo)
+    iv = [r[1], r[2], r[3]] if r[0] == "ok" else r[:2]
+    if t != "ok":
+        return t, iv
+    return [L.expect_raw(bytes(mo[1]), c["cap"], guard), mo[2], mo[3]], iv
+
+
+def _w1_oracle(c, r, so, guard):
+    if r[0] != "ok":
+        return [(r[0], "real code: %r" % (r,))]
+    want = bytes(so)
+    got = bytes.fromhex(r[1])[:len(want)]
+    probs = []
+    if got != want:
+        probs.append(("values", "write_bitpacked1 wrote %s, PLAIN boolean packing (LSB first) is %s" % (got.hex(), want.hex())))
+    if r[2] != c["count"]:
+        probs.append(("cursor", "input cursor advanced by %d for %d one-byte values" % (r[2], c["count"])))
+    return probs
+
+
+# ---- byte arrays, booleans, Python packers ---------------------------------------------------
+def gen_plain(rng, quick):
+    cases = []
+    lens = [0, 1, 2, 3, 255, 256, 1000]
+    for k in range(0, 6 if quick else 12):
+        for rep in range(3):
+            items = [bytes(rng.randrange(256) for _ in range(rng.choice(lens) if rep else (rep + i) % 4)) for i in range(k)]
+            cases.append({"fn": "pack_byte_array", "items": [x.hex() for x in items], "stream": "main", "meta": {"k": k}})
+            for n in sorted({0, k - 1, k, k + 1, k + 3}):
+                if n < 0:
+                    continue
+                cases.append({"fn": "unpack_byte_array", "n": n, "enc": ["ba_enc", items], "trail": False, "stream": "main",
+                              "meta": {"k": k, "items": [x.hex() for x in items], "truncated": False}})
+            if k:
+                # a buffer that ends inside the last item / inside a length field
+                for cut in (1, 5):
+                    cases.append({"fn": "unpack_byte_array", "n": k, "enc": ["ba_enc", items], "cut": cut, "trail": False,
+                                  "stream": "confirm", "meta": {"k": k, "items": [x.hex() for x in items], "truncated": True}})
+    N = 40 if quick else 130
+    for n in range(0, N + 1):
+        for pname, vs in patterns(rng, 1, n):
+            if quick and pname in ("zeros", "ones") and n % 8 not in (0, 1, 7):
+                continue
+            cases.append({"fn": "read_plain_boolean", "count": n, "enc": ["bool_enc", vs], "trail": pname == "random",
+                          "stream": "main", "meta": {"vals": vs}})
+            cases.append({"fn": "convert_bool", "vals": vs, "stream": "main", "meta": {}})
+    for dt, isz in (("int8", 1), ("int16", 2), ("int32", 4)):
+        for n in ([0, 1, 7, 8, 9, 16, 17, 64, 65] if quick else list(range(0, 70)) + [127, 128, 129, 1000, 1023, 1024, 1025]):
+            vs = [rng.randrange(1 << (8 * isz - 1)) for _ in range(n)]
+            cases.append({"fn": "encode_dict", "vals": vs, "dtype": dt, "stream": "main", "meta": {"isz": isz}})
+    return cases
+
+
+def _cut_inp(c):
+    b = _inp(c)
+    return b[:len(b) - c["cut"]] if c.get("cut") else b
+
+
+def _ub_views(c, mo, r, guard):
+    t = L.tag(mo)
+    if t != "ok":
+        return t, r[:2] if r[0] != "ok" else ["ok"]
+    mv = [None if x == [] else bytes(x[0]).hex() for x in mo[1]]
+    return mv, (r[1] if r[0] == "ok" else r[:2])
+
+
+def _ub_oracle(c, r, so, guard):
+    if r[0] == "skip":
+        return []
+    if r[0] != "ok":
+        return [(r[0], "real code: %r" % (r,))]
+    items = c["meta"]["items"]
+    want = [items[i] if i < len(items) else None for i in range(c["n"])]
+    if c["meta"]["truncated"]:
+        return []
+    if r[1] != want:
+        return [("values", "unpack_byte_array returned %r, the buffer holds %r" % (str(r[1])[:120], str(want)[:120]))]
+    return []
+
+
+def _pb_oracle(c, r, so, guard):
+    if r[0] != "ok" or bytes.fromhex(r[1]) != bytes(so):
+        return [("values", "pack_byte_array output differs from PLAIN BYTE_ARRAY encoding")]
+    return []
+
+
+def _rpb_views(c, mo, r, guard):
+    t = L.tag(mo)
+    return (mo[1] if t == "ok" else t), (r[1] if r[0] == "ok" else r[:2])
+
+
+def _rpb_oracle(c, r, so, guard):
+    if r[0] != "ok":
+        return [(r[0], "real code: %r" % (r,))]
+    if r[1] != list(so):
+        return [("values", "read_plain_boolean(count=%d) returned %d values %r..., the bytes hold %r..." % (c["count"], len(r[1]), r[1][:16], list(so)[:16]))]
+    return []
+
+
+def _cb_oracle(c, r, so, guard):
+    """relation, not byte equality: the bytes must decode (spec) to the input booleans and be no shorter than PLAIN needs"""
+    if r[0] != "ok" or so[1] is None:
+        return [(r[0], "real code: %r" % (r,))]
+    out = bytes.fromhex(r[1])
+    n = len(c["vals"])
+    if len(out) < (n + 7) // 8:
+        return [("count", "%d bytes for %d booleans" % (len(out), n))]
+    dec = so[1]
+    if list(dec) != c["vals"]:
+        return [("values", "packed booleans %s do not decode to the input" % out[:20].hex())]
+    if any(out[(n + 7) // 8:]) or (n % 8 and out[n // 8] >> (n % 8)):
+        return [("values", "padding bits are not zero")]
+    return []
+
+
+def _ed_oracle(c, r, so, guard):
+    if r[0] != "ok":
+        return [(r[0], "real code: %r" % (r,))]
+    out = bytes.fromhex(r[1])
+    isz = c["meta"]["isz"]
+    n = len(c["vals"])
+    if not out or out[0] != 8 * isz or so[1] is None:
+        return [("values", "first byte (bit width) is %r, expected %d" % (out[:1].hex(), 8 * isz))]
+    dec = so[1]
+    if not dec or list(dec[0][0]) != c["vals"]:
+        return [("values", "RLE_DICTIONARY index block does not decode (spec hybrid decoder) to the %d indices: %s..." % (n, out[:12].hex()))]
+    if n and len(dec[0][1]):
+        return [("cursor", "%d bytes behind the bit-packed run" % len(dec[0][1]))]
+    return []
+
+
+def _info_views(model_name):
+    def views(c, mo, r, guard):
+        # Python code producing artefacts: byte equality with the witness model is information, not an obligation
+        return "relation", "relation"
+    return views
+
+
+FNS.update({
+    "delta_unpack": dict(model=_du_model, views=_du_views, spec=lambda c: ("delta_dec", 64 if c["longval"] else 32, _inp(c)),
+                         oracle=_du_oracle, safe=_du_safe, cls=_du_cls, trivial=lambda c: c["meta"]["count"] == 0 or c["cap"] == 0),
+    "enc_bitpacked": dict(model=lambda c: ("c_encode_bitpacked", c["vals"], c["w"], c["cap"]), views=_eb_views, spec=_eb_spec,
+                          oracle=_eb_oracle, spec2=_eb_spec2, safe=lambda c: c["w"] <= 24, cls=lambda c: {"width": c["w"]},
+                          trivial=lambda c: not c["vals"] or c["cap"] == 0),
+    "enc_rle_bp": dict(model=lambda c: ("c_encode_rle_bp", c["vals"], c["w"], c["cap"], c["withlength"]), views=_eb_views,
+                       spec=_eb_spec, oracle=_eb_oracle, spec2=_eb_spec2, safe=lambda c: c["w"] <= 24,
+                       cls=lambda c: {"width": c["w"], "withlength": c["withlength"]},
+                       trivial=lambda c: not c["vals"] or c["cap"] == 0),
+    "width_from_max_int": dict(model=lambda c: ("c_width_from_max_int", c["x"]), tagged=False,
+                               views=lambda c, mo, r, g: (mo, r[1] if r[0] == "ok" else r[:2]),
+                               spec=lambda c: ("uleb_enc", 0), oracle=_wf_oracle, safe=lambda c: True, cls=lambda c: {},
+                               trivial=lambda c: False),
+    "write_bitpacked1": dict(model=lambda c: ("c_write_bitpacked1", _inp(c), c["count"], c["cap"]), views=_w1_views,
+                             spec=lambda c: ("bool_enc", c["meta"]["vals"]), oracle=_w1_oracle, safe=lambda c: True,
+                             cls=lambda c: {}, trivial=lambda c: c["count"] == 0),
+    "pack_byte_array": dict(model=lambda c: ("c_pack_byte_array", [bytes.fromhex(x) for x in c["items"]]), tagged=False,
+                            views=lambda c, mo, r, g: (bytes(mo).hex(), r[1] if r[0] == "ok" else r[:2]),
+                            spec=lambda c: ("ba_enc", [bytes.fromhex(x) for x in c["items"]]), oracle=_pb_oracle,
+                            safe=lambda c: True, cls=lambda c: {}, trivial=lambda c: not c["items"]),
+    "unpack_byte_array": dict(model=lambda c: ("c_unpack_byte_array", _cut_inp(c), c["n"]), views=_ub_views,
+                              spec=lambda c: ("ba_dec", min(c["n"], c["meta"]["k"]), _inp(c)), oracle=_ub_oracle,
+                              safe=lambda c: not c["meta"]["truncated"], cls=lambda c: {"truncated": c["meta"]["truncated"]},
+                              trivial=lambda c: c["n"] == 0 or c["meta"]["k"] == 0),
+    "read_plain_boolean": dict(model=lambda c: ("py_read_plain_boolean", _inp(c), c["count"]), views=_rpb_views,
+                               spec=lambda c: ("bool_dec", c["count"], _inp(c)[:c["enc_len"]]), oracle=_rpb_oracle,
+                               safe=lambda c: True, cls=lambda c: {}, trivial=lambda c: c["count"] == 0),
+    "convert_bool": dict(model=lambda c: ("py_bool_pack", c["vals"]), tagged=False, views=_info_views("py_bool_pack"),
+                         spec=lambda c: ("bool_enc", c["vals"]), oracle=_cb_oracle, safe=lambda c: True, cls=lambda c: {},
+                         spec2=lambda c, r: ("bool_dec", len(c["vals"]), bytes.fromhex(r[1])) if r[0] == "ok" else None,
+                         trivial=lambda c: not c["vals"], info=lambda c, mo, r: r[0] == "ok" and bytes(mo).hex() == r[1]),
+    "encode_dict": dict(model=lambda c: ("py_encode_dict", c["meta"]["isz"], c["vals"]), tagged=False,
+                        views=_info_views("py_encode_dict"), spec=lambda c: ("uleb_enc", 0), oracle=_ed_oracle,
+                        spec2=lambda c, r: ("hyb_dec", 0, 8 * c["meta"]["isz"], len(c["vals"]), bytes.fromhex(r[1])[1:]) if r[0] == "ok" and r[1] else None,
+                        safe=lambda c: True, cls=lambda c: {}, trivial=lambda c: not c["vals"],
+                        info=lambda c, mo, r: r[0] == "ok" and bytes(mo).hex() == r[1]),
+})
+EXTRA_GENERATORS += [gen_delta, gen_encoders, gen_plain]
